@@ -79,3 +79,7 @@ OBLIGATIONS += [
        gi_pre=["--replace-calls", "chacha20_encrypt_bytes:v_encrypt_bytes_stub"], replayable=False, cbmc=["--unwind", "34", "--unwinding-assertions", "--object-bits", "18"],
        assumes=["chacha20_encrypt_bytes replaced by a logging stub here (its own correctness: c03.f.chacha20_ref.bytes_*)"], bound="values: length <= 65535"),
 ]
+
+OBLIGATIONS.append(ob("c03.f.generic_api", "harness/generic_c03.c", "hf_generic_c03", ["crypto_stream", "crypto_stream_xor", "crypto_stream_keygen", "size accessors"],
+    "the generic crypto_stream / crypto_stream_xor call XSalsa20 exactly once with the caller's arguments unchanged (every length) and return its result; keygen draws 32 bytes",
+    props=["C03"], replayable=True, cbmc=["--unwind", "10", "--unwinding-assertions"], assumes=["crypto_stream_xsalsa20* are logging stubs here (their own obligations: c03.f.xsalsa20*)"]))
